@@ -147,6 +147,12 @@ static int run_standalone(const char *path) {
             fprintf(stderr, "  %s\n", vm.error_msg);
         }
         exit_code = 1;
+    } else {
+        /* main's integer result is the exit status, as with nano_virt --run and native wrappers */
+        NanoValue ret = vm_get_result(&vm);
+        if (ret.tag == TAG_INT) {
+            exit_code = (int)ret.as.i64;
+        }
     }
 
     /* Stop co-process if it was launched */
